@@ -389,6 +389,39 @@ fn point_kind(site: &'static str, kind: u8) {
     g.quiet_next = site == "intern";
     g.event(me, kind, sid);
     s.hand_over(g, me, kind);
+    // anchored window: after the n-th visit of this site by this thread, single-step k more
+    // instructions and preempt (armed here; the trap flag goes on when the mode guard of this
+    // function switches back to code under test)
+    if kind == K_POINT {
+        let hit = {
+            let a = ANCHOR.lock().unwrap();
+            match a.as_ref() {
+                Some((t, st, nth, k)) if *t == me && st == site => {
+                    let seen = ANCHOR_SEEN.fetch_add(1, SeqCst);
+                    if seen == *nth { Some(*k) } else { None }
+                }
+                _ => None,
+            }
+        };
+        if let Some(k) = hit {
+            ANCHOR_ARMED.fetch_add(1, SeqCst);
+            FINE_LEFT.with(|c| c.set(k));
+            FINE_ON.with(|c| c.set(true));
+        }
+    }
+}
+
+/// Anchored instruction-level window: (thread, site, n, k) - after the n-th visit of hook site
+/// `site` by thread `thread`, that thread is single-stepped and preempted k instructions of code
+/// under test later. Hook sites are where shared state is touched (interning, registry lock,
+/// clone/drop of host values), so the instructions right behind them are where a check-then-act
+/// on an un-hooked primitive would sit.
+static ANCHOR: Mutex<Option<(usize, String, u64, u64)>> = Mutex::new(None);
+static ANCHOR_SEEN: AtomicU64 = AtomicU64::new(0);
+pub static ANCHOR_ARMED: AtomicU64 = AtomicU64::new(0);
+pub fn set_anchor(a: Option<(usize, String, u64, u64)>) {
+    *ANCHOR.lock().unwrap() = a;
+    ANCHOR_SEEN.store(0, SeqCst);
 }
 
 pub fn set_label(label: &str) {
@@ -633,9 +666,9 @@ extern "C" fn trap_handler(_sig: libc::c_int, _info: *mut libc::siginfo_t, uctx:
         uc.uc_mcontext.gregs[libc::REG_EFL as usize] &= !TF;
         return;
     }
-    if alloc::mode() != alloc::MODE_RUN {
-        // harness (or compile) code: not stepped, not counted, never preempted; stepping
-        // resumes when the thread switches back to RUN mode (alloc::set_mode)
+    if alloc::mode() == alloc::MODE_PLAIN {
+        // harness code: not stepped, not counted, never preempted; stepping resumes when the
+        // thread switches back to code under test (alloc::set_mode)
         uc.uc_mcontext.gregs[libc::REG_EFL as usize] &= !TF;
         return;
     }
